@@ -5,7 +5,7 @@ obligation), tiers, caps and what each decides.  See DESIGN.md §3.
 
 DEFAULT_TIMEOUT = {"quick": 1500, "thorough": 3000}
 DEFAULT_MEM_GB = 14
-MAX_JOBS = 12
+MAX_JOBS = 8
 
 # string bound L (bytes) and model table sizes, per tier
 DEFAULT_BOUNDS = {
@@ -109,7 +109,7 @@ C13_OBS = [
     ob("O13.1b", DIR + "dir_remove_all_rmdir_ok", "... unlink fails (any errno), rmdir succeeds: unlinkat(0) then unlinkat(AT_REMOVEDIR), Ok", stubs=RA_STUBS, covers_may_be_unsat=["unlinked", "scanned", "scan open failed"], cost=5),
     ob("O13.3a", DIR + "dir_remove_inode_contract", "remove_inode(dir,name) real body, arbitrary kernel: unlinkat(0) then unlinkat(AT_REMOVEDIR) on the same (dir,name); Ok if either succeeds; else the errno reported is rmdir's unless that is ENOTDIR (then unlink's)", stubs=["syscalls::unlinkat"], cost=6),
     ob("O13.3d", DIR + "dir_ignore_enoent_all_errnos", "ignore_enoent for EVERY errno 1..=133 in OsError / RawOsError / wrapped form and for non-errno classes: Ok iff the input was Ok or its errno is ENOENT", cost=2),
-    ob("O13.3b", DIR + "dir_scan_open_fails", "utils::remove_all, every non-refused name <= L, removal failed with EACCES and the directory-scan open fails with EACCES (remove_inode replaced by its contract O13.3a): the open is openat(dir,name) with O_DIRECTORY|O_NOFOLLOW, the failure is REPORTED (Ok only for ENOENT), exactly two steps", stubs=["remove_inode", "syscalls::openat_follow", "Dir::read_from"], covers_may_be_unsat=["listing failed", "directory vanished"], timeout={"quick": 2400, "thorough": 5400}, mem_gb=24, cost=9),
+    ob("O13.3b", DIR + "dir_scan_open_fails", "utils::remove_all, every non-refused name <= L, removal failed with EACCES and the directory-scan open fails with EACCES (remove_inode replaced by its contract O13.3a): the open is openat(dir,name) with O_DIRECTORY|O_NOFOLLOW, the failure is REPORTED (Ok only for ENOENT), exactly two steps", stubs=["remove_inode", "syscalls::openat_follow", "Dir::read_from"], covers_may_be_unsat=["listing failed", "directory vanished"], timeout={"quick": 2700, "thorough": 5400}, mem_gb=24, cost=20),
     ob("O13.3c", DIR + "dir_scan_listing", "... removal failed with ENOTEMPTY, scan open succeeds, listing fails with an arbitrary errno: ENOENT => one more removal attempt on the same (dir,name), else that errno; sub-directory fd closed", stubs=["remove_inode", "syscalls::openat_follow", "Dir::read_from"], covers_may_be_unsat=["scan open failed"], tiers=("thorough",), timeout={"thorough": 5400}, mem_gb=30, cost=6),
     ob("O13.1f", DIR + "dir_remove_all_scan_enotempty", "... unlink and rmdir fail with ENOTEMPTY (non-empty directory), scan open succeeds: the open is openat(dir, name, O_DIRECTORY|O_NOFOLLOW), listing failure is reported, sub-directory fd closed [monolithic: no contract stub]", stubs=RA_STUBS, covers_may_be_unsat=["unlinked", "rmdir-ed", "refused", "scan open failed"], tiers=("thorough",), timeout={"thorough": 5400}, mem_gb=30, cost=6),
     ob("O13.1g", DIR + "dir_remove_all_open_eacces", "... unlink, rmdir and the scan open all fail with EACCES: EACCES is reported (never Ok), exactly three calls, scan open flags as above [monolithic]", stubs=RA_STUBS, covers_may_be_unsat=["unlinked", "rmdir-ed", "scanned"], tiers=("thorough",), timeout={"thorough": 5400}, mem_gb=30, cost=6),
